@@ -8,6 +8,7 @@ import (
 	"os"
 	"path"
 	"slices"
+	"strings"
 	"syscall"
 
 	"github.com/pdok/texel/pointindex"
@@ -229,6 +230,7 @@ func initGPKGTarget(targetPathFmt string, tmID int, overwrite bool, pagesize int
 }
 
 func injectSuffixIntoPath(p string) string {
+	p = strings.ReplaceAll(p, "%", "%%") // the result is used as a format: a percent sign in the path stands for itself
 	dir, file := path.Split(p)
 	ext := path.Ext(file)
 	name := file[:len(file)-len(ext)]
